@@ -3,6 +3,7 @@ package locking
 import (
 	"fmt"
 	"net/http"
+	"net/url"
 	"strconv"
 
 	"github.com/git-lfs/git-lfs/v3/errors"
@@ -123,7 +124,8 @@ type unlockResponse struct {
 
 func (c *httpLockClient) Unlock(ref *git.Ref, remote, id string, force bool) (*unlockResponse, int, error) {
 	e := c.Endpoints.Endpoint("upload", remote)
-	suffix := fmt.Sprintf("locks/%s/unlock", id)
+	// The id is chosen by the server and is one segment of the path.
+	suffix := fmt.Sprintf("locks/%s/unlock", url.PathEscape(id))
 	req, err := c.NewRequest("POST", e, suffix, &unlockRequest{
 		Force: force,
 		Ref:   newLockRef(ref),
